@@ -87,10 +87,13 @@ class Universe:
         if tv is set or tv is frozenset:
             return ('S' if tv is set else 'F', tuple(sorted((self._enc_deep(x) for x in v), key=repr)))
         try:
-            key = (tv, v)
-            hash(key)
+            hash(v)
+            # plain hashable values (ids used as dict keys, numbers, strings) travel by value: states are handed from one worker
+            # process to another, so an index into a per-process table would not survive the trip
+            return ('V', tv.__name__, v)
         except TypeError:
-            key = ('id', id(v))
+            pass
+        key = ('id', id(v))
         ix = self._plain_ix.get(key)
         if ix is None:
             ix = self._plain_ix[key] = len(self._plains)
@@ -101,7 +104,11 @@ class Universe:
         k = e[0]
         if k == 'R':
             return self.objs[e[1]]
+        if k == 'V':
+            return e[2]
         if k == 'P':
+            if e[1] >= len(self._plains):
+                raise RuntimeError('HARNESS cannot restore an unhashable plain value created in another worker process')
             return self._plains[e[1]]
         if k == 'L':
             return [self._dec_deep(x) for x in e[1]]
@@ -467,6 +474,30 @@ def has_duplicate_links(obs):
             if len(lst) != len(set(lst)) and max(lst.count(x) for x in set(lst)) > 2:
                 return True
     return False
+
+
+def read_all(U: Universe):
+    """The 'read' operation of the alphabet: every public getter is called once and the results are thrown away. What the
+    getters return is judged by the state checks; here only the side effect on the library's hidden state matters."""
+    for t in U.tasks:
+        for name in ('parent', 'children', 'predecessors', 'successors', 'wbs', 'id', 'all_parents', 'all_children'):
+            try:
+                v = getattr(t, name)
+                if name in ('children', 'predecessors', 'successors', 'all_parents', 'all_children'):
+                    list(v)
+            except Exception:  # noqa - ill-formed states may make getters raise; the state checks report that
+                pass
+    for w in U.wbs:
+        for name in ('roots', 'tasks'):
+            try:
+                list(getattr(w, name))
+            except Exception:  # noqa
+                pass
+        for idv in sorted(set(U.ids), key=repr) + [ABSENT_ID]:
+            try:
+                w[idv]
+            except Exception:  # noqa
+                pass
 
 
 def getter_violations(U: Universe, obs):
